@@ -44,7 +44,7 @@ def one_case(col: Collector, rng, index: int, prop: str, max_tasks: int, emphasi
         consumed = sorted({(e[0], e[1]) for e in js["edges"]})
         if consumed and rng.random() < 0.7:
             js["ext"] = sorted(set(js["ext"]) | set(rng.sample(consumed, rng.randint(1, len(consumed)))))
-    env = gen_env(rng, js, max_hosts=4, max_workers=4)
+    env = gen_env(rng, js, max_hosts=rng.choice([4, 4, 4, 6]), max_workers=4)
     if emphasis == "liveness" and rng.random() < 0.2:
         env = {"h0": [(f"w{i}", 1 if i == 0 and any(t["needs_gpu"] for t in js["tasks"].values()) else 0) for i in range(rng.randint(1, 4))]}
     if gpu_mix:
